@@ -103,6 +103,54 @@ def check_chain(ctx, case, workload):
     exp = dict_of(types, m, case["meta"])
     if canon_dict(d) != canon_dict(exp):
         ctx.violate("chain-to_dict:direct", f"to_dict() = {str(d)[:600]} differs from the chain given {str(exp)[:600]}", wit)
+    if ctx.rng.random() < 0.15 and chains.depth_of(types, m) >= 2:
+        # the caller's dictionary is first handed over in a state the library refuses (a nested table damaged: no final-state entry, or two modes for a
+        # particle of a single chain), or the conversion is abandoned at a random line (Ctrl-C); the caller repairs the SAME dictionary object and tries
+        # again.  A refused or abandoned conversion leaves the caller's dictionary alone, and the retry gives the chain.
+        import copy  # noqa: PLC0415
+
+        from .. import trace  # noqa: PLC0415
+
+        def nested(node, depth=0, acc=None):
+            acc = [] if acc is None else acc
+            (mm, modes), = node.items()
+            for mode in modes:
+                for x in mode["fs"]:
+                    if isinstance(x, dict):
+                        acc.append((depth + 1, x))
+                        nested(x, depth + 1, acc)
+            return acc
+
+        subs = nested(d)
+        if subs:
+            how = ctx.rng.choice(["no-fs-entry", "two-modes", "abandoned"])
+            ctx.hit("dictionary-handed-over-again-after-a-conversion-that-went-wrong:" + how)
+            pristine = copy.deepcopy(d)
+            _, victim = subs[-1] if ctx.rng.random() < 0.5 else ctx.rng.choice(subs)
+            (vm, vmodes), = victim.items()
+            try:
+                if how == "no-fs-entry" and vmodes:
+                    saved = vmodes[0].pop("fs")
+                    try:
+                        DecayChain.from_dict(d)
+                    finally:
+                        vmodes[0]["fs"] = saved
+                elif how == "two-modes" and vmodes:
+                    vmodes.append(copy.deepcopy(vmodes[0]))
+                    try:
+                        DecayChain.from_dict(d)
+                    finally:
+                        vmodes.pop()
+                else:
+                    fp = trace.Failpoint.get()
+                    _, n = fp.count(DecayChain.from_dict, copy.deepcopy(d))
+                    fp.inject(ctx.rng.randint(1, max(1, n)), DecayChain.from_dict, d)
+            except Exception:  # noqa: BLE001, S110   the refusal itself is not judged
+                pass
+            contracts.drain()
+            if d != pristine:
+                ctx.violate("chain-roundtrip:callers-dictionary-changed-by-a-conversion-that-went-wrong", f"after {how}: {str(d)[:500]} was {str(pristine)[:500]}", {**wit, "went_wrong": how})
+                d = pristine
     ok, back = ctx.guard("chain-roundtrip:from_dict-raised", wit, DecayChain.from_dict, d)
     if not ok:
         return
